@@ -17,9 +17,11 @@ def run(ctx):
              "plus every observer/member comparison",
         what_corr="the observer admits / refuses a ciphertext differently from the window model",
         what_oracle="observer diverges from the members' public state, rejects what members accept, or panics",
-        assumptions=["external proposals issued by the observer are not generated yet (needs an external-senders extension in the group)",
+        assumptions=["proposals issued by the observer as an external sender are exercised by the directed scenario c10x (group with an ExternalSendersExt; Remove accepted and committed, a relayed Update dropped), not inside the random histories",
                      "observers can only follow histories whose handshake messages are public"],
-        nontrivial=lambda r, kv: len(set(open(__import__('os').path.join(ctx.work, 'c16.q')).read().splitlines())) + int(kv.get("comparisons", "0")))
+        nontrivial=lambda r, kv: len(set(open(__import__('os').path.join(ctx.work, 'c16.q')).read().splitlines())) + int(kv.get("comparisons", "0")),
+        # proposals issued by an observer acting as external sender (allowed types are committed, a relayed Update is dropped)
+        also=[(["c10x"], None, "c10x")])
 
 
 def replay(ctx, path):
